@@ -25,7 +25,7 @@ inductive Rule where
   | noQuery | queryNotObject | mutationNotObject | subscriptionNotObject
   | dirDupArg | dirArgNotInput
   | noFields | dupField | fieldNotOutput | dupArg | argNotInput
-  | resMissingParam | resPosOnly | resNeedsDefault | resPositional | resExtraRequired
+  | resMissingParam | resPosOnly | resNeedsDefault | resPositional | resExtraRequired | resCollides
   | notInterface | dupInterface | ifaceFieldMissing | ifaceFieldType | ifaceArgMissing | ifaceArgType
   | extraRequiredArg
   | unionEmpty | unionMemberNotObject | unionDup
@@ -41,7 +41,7 @@ def Rule.id : Rule → String
   | .noFields => "noFields" | .dupField => "dupField" | .fieldNotOutput => "fieldNotOutput"
   | .dupArg => "dupArg" | .argNotInput => "argNotInput"
   | .resMissingParam => "resMissingParam" | .resPosOnly => "resPosOnly" | .resNeedsDefault => "resNeedsDefault"
-  | .resPositional => "resPositional" | .resExtraRequired => "resExtraRequired"
+  | .resPositional => "resPositional" | .resExtraRequired => "resExtraRequired" | .resCollides => "resCollides"
   | .notInterface => "notInterface" | .dupInterface => "dupInterface"
   | .ifaceFieldMissing => "ifaceFieldMissing" | .ifaceFieldType => "ifaceFieldType"
   | .ifaceArgMissing => "ifaceArgMissing" | .ifaceArgType => "ifaceArgType"
@@ -52,7 +52,7 @@ def Rule.id : Rule → String
 def Rule.all : List Rule :=
   [.invalidName, .invalidTypeName, .noQuery, .queryNotObject, .mutationNotObject, .subscriptionNotObject,
    .dirDupArg, .dirArgNotInput, .noFields, .dupField, .fieldNotOutput, .dupArg, .argNotInput,
-   .resMissingParam, .resPosOnly, .resNeedsDefault, .resPositional, .resExtraRequired,
+   .resMissingParam, .resPosOnly, .resNeedsDefault, .resPositional, .resExtraRequired, .resCollides,
    .notInterface, .dupInterface, .ifaceFieldMissing, .ifaceFieldType, .ifaceArgMissing, .ifaceArgType,
    .extraRequiredArg, .unionEmpty, .unionMemberNotObject, .unionDup, .enumEmpty, .inputFieldNotInput]
 
@@ -143,6 +143,32 @@ def forSeen {α} (key : α → String) (step : α → Bool → List Err × Bool)
     (step x (seen.contains (key x))).1 ++
       forSeen key step xs (if (step x (seen.contains (key x))).2 then key x :: seen else seen)
 
+/-! ### the shape of the validator (decisions of the code, re-extracted from the source on every run) -/
+
+structure Config where
+  /-- `continue` after "Invalid type name": the members of the type are not examined -/
+  maskTypeName : Bool
+  /-- `continue` after a duplicate field / argument / input field / directive argument -/
+  maskDuplicate : Bool
+  /-- `continue` after a non-covariant interface field type: its argument checks are skipped -/
+  maskImplType : Bool
+  /-- the resolver-signature rule follows the call `resolver(root, ctx, info, **arguments)` exactly -/
+  preciseResolver : Bool
+  /-- additional object field arguments are tested with `arg.required` (not `isinstance(arg.type, NonNullType)`) -/
+  extraArgRequired : Bool
+  /-- `field.subscription_resolver` goes through the resolver-signature rule -/
+  subscriptionChecked : Bool
+  deriving DecidableEq, Repr
+
+/-- the tree with the proposed fixes C13-H7, C13-H1-H2-H3-H9, C13-H4-H5-H6, C13-H8 -/
+def Config.fixed : Config := ⟨false, false, false, true, true, true⟩
+/-- the tree before them -/
+def Config.legacy : Config := ⟨true, true, true, false, false, false⟩
+
+/-- what the source says today -/
+def currentConfig : Config :=
+  ⟨cfgMaskTypeName, cfgMaskDuplicate, cfgMaskImplType, cfgPreciseResolver, cfgExtraArgRequired, cfgSubscriptionChecked⟩
+
 /-! ### `SchemaValidator` methods -/
 
 def rootErr (s : SchemaD) (rule : Rule) : Option String → List Err
@@ -156,19 +182,22 @@ def validateRootTypes (s : SchemaD) : List Err :=
   rootErr s .mutationNotObject s.mutation ++
   rootErr s .subscriptionNotObject s.subscription
 
+def notInputErr (s : SchemaD) (rule : Rule) (owner : String) (a : ArgD) : List Err :=
+  if isInputType s a.type then [] else [⟨rule, [a.name, owner, a.type.render]⟩]
+
 /-- the argument loop shared (textually duplicated in the source) by `validate_directives` and
     `validate_fields` -/
-def validateArguments (s : SchemaD) (dupRule notInputRule : Rule) (owner : String) (args : List ArgD) : List Err :=
+def validateArgumentsWith (c : Config) (s : SchemaD) (dupRule notInputRule : Rule) (owner : String) (args : List ArgD) : List Err :=
   forSeen (·.name) (fun a dup =>
     (checkValidName a.name ++
-      (if dup then [⟨dupRule, [a.name, owner]⟩]
-       else if isInputType s a.type then [] else [⟨notInputRule, [a.name, owner, a.type.render]⟩]), true))
+      (if dup then [⟨dupRule, [a.name, owner]⟩] else []) ++
+      (if dup && c.maskDuplicate then [] else notInputErr s notInputRule owner a), true))
     args []
 
 /-- `validate_directives` -/
-def validateDirectives (s : SchemaD) : List Err :=
+def validateDirectivesWith (c : Config) (s : SchemaD) : List Err :=
   s.directives.flatMap fun d =>
-    checkValidName d.name ++ validateArguments s .dirDupArg .dirArgNotInput d.name d.args
+    checkValidName d.name ++ validateArgumentsWith c s .dirDupArg .dirArgNotInput d.name d.args
 
 /-- `arg.required` -/
 def argRequired (a : ArgD) : Bool := a.type.isNonNull && !a.hasDefault
@@ -178,7 +207,9 @@ def findParam (ps : List ParamD) (n : String) : Option ParamD := ps.find? (·.na
 def isVarKind (k : ParamKind) : Bool := k == .varPos || k == .varKw
 def isPositionalKind (k : ParamKind) : Bool := k == .posOnly || k == .posOrKw
 
-def resolverArgErr (path : String) (params : List ParamD) (varKw : Bool) (a : ArgD) : List Err :=
+/-! #### legacy resolver-signature rule (before fix C13-H1-H2-H3-H9) -/
+
+def resolverArgErrLegacy (path : String) (params : List ParamD) (varKw : Bool) (a : ArgD) : List Err :=
   match findParam params a.pythonName with
   | none => if varKw then [] else [⟨.resMissingParam, [a.name, path]⟩]
   | some p =>
@@ -189,32 +220,77 @@ def resolverArgErr (path : String) (params : List ParamD) (varKw : Bool) (a : Ar
 def remainingParams (params : List ParamD) (args : List ArgD) : List ParamD :=
   params.filter fun p => !(args.map (·.pythonName)).contains p.name && !isVarKind p.kind
 
-/-- `_validate_resolver_arguments` -/
-def validateResolverArguments (path : String) (args : List ArgD) (r : ResolverD) : List Err :=
-  if !r.inspectable then [] else
-  args.flatMap (resolverArgErr path r.params (r.params.any (·.kind == .varKw))) ++
+def resolverErrsLegacy (path : String) (args : List ArgD) (r : ResolverD) : List Err :=
+  args.flatMap (resolverArgErrLegacy path r.params (r.params.any (·.kind == .varKw))) ++
   (if !r.params.any (·.kind == .varPos) &&
       ((remainingParams r.params args).filter (fun p => isPositionalKind p.kind)).length < 3
    then [⟨.resPositional, [path]⟩] else []) ++
   ((remainingParams r.params args).drop 3).flatMap fun p =>
     if p.hasDefault then [] else [⟨.resExtraRequired, [p.name, path]⟩]
 
+/-! #### the resolver-signature rule, following the call `resolver(root, ctx, info, **arguments)` -/
+
+/-- `positional_params` -/
+def positionalParams (ps : List ParamD) : List ParamD := ps.filter fun p => isPositionalKind p.kind
+/-- names of `leading_params`: the parameters that receive `(root, ctx, info)` -/
+def leadingNames (ps : List ParamD) : List String := ((positionalParams ps).take 3).map (·.name)
+
+/-- `keyword_params.get(name)`: the parameter that receives the argument passed by keyword -/
+def keywordParam (ps : List ParamD) (n : String) : Option ParamD :=
+  ps.find? fun p => p.name == n && (p.kind == .posOrKw || p.kind == .kwOnly) && !(leadingNames ps).contains p.name
+
+def resolverArgErr (path : String) (ps : List ParamD) (varKw : Bool) (a : ArgD) : List Err :=
+  match keywordParam ps a.pythonName with
+  | some p =>
+    if !p.hasDefault && !a.hasDefault && !argRequired a then [⟨.resNeedsDefault, [a.name, path]⟩] else []
+  | none =>
+    match findParam ps a.pythonName with
+    | some cl =>
+      if (leadingNames ps).contains cl.name && cl.kind == .posOrKw then [⟨.resCollides, [a.name, path]⟩]
+      else if cl.kind == .posOnly && !varKw then [⟨.resPosOnly, [a.name, path]⟩]
+      else if !varKw then [⟨.resMissingParam, [a.name, path]⟩] else []
+    | none => if !varKw then [⟨.resMissingParam, [a.name, path]⟩] else []
+
+/-- `provided_param_names` -/
+def providedNames (ps : List ParamD) (args : List ArgD) : List String :=
+  args.filterMap fun a => (keywordParam ps a.pythonName).map (·.name)
+
+/-- parameters that receive nothing from the call -/
+def unfedParams (ps : List ParamD) (args : List ArgD) : List ParamD :=
+  ps.filter fun p => !isVarKind p.kind && !(leadingNames ps).contains p.name && !(providedNames ps args).contains p.name
+
+def resolverErrs (path : String) (args : List ArgD) (r : ResolverD) : List Err :=
+  (if !r.params.any (·.kind == .varPos) && (positionalParams r.params).length < 3
+   then [⟨.resPositional, [path]⟩] else []) ++
+  args.flatMap (resolverArgErr path r.params (r.params.any (·.kind == .varKw))) ++
+  (unfedParams r.params args).flatMap fun p =>
+    if p.hasDefault then [] else [⟨.resExtraRequired, [p.name, path]⟩]
+
+/-- `_validate_resolver_arguments` -/
+def validateResolverArgumentsWith (c : Config) (path : String) (args : List ArgD) (r : ResolverD) : List Err :=
+  if !r.inspectable then [] else
+  if c.preciseResolver then resolverErrs path args r else resolverErrsLegacy path args r
+
 /-- `field.resolver or (composite_type.default_resolver if ObjectType) or schema.default_resolver` -/
 def pickResolver (s : SchemaD) (t : TypeD) (f : FieldD) : Option ResolverD :=
   f.resolver <|> (if t.kind == .object then t.defaultResolver else none) <|> s.defaultResolver
 
-def fieldBody (s : SchemaD) (rv : Bool) (t : TypeD) (f : FieldD) : List Err :=
+def resolverPart (c : Config) (rv : Bool) (path : String) (args : List ArgD) : Option ResolverD → List Err
+  | some r => if rv then validateResolverArgumentsWith c path args r else []
+  | none => []
+
+def fieldBodyWith (c : Config) (s : SchemaD) (rv : Bool) (t : TypeD) (f : FieldD) : List Err :=
   (if isOutputType s f.type then [] else [⟨.fieldNotOutput, [f.name, t.name, f.type.render]⟩]) ++
-  validateArguments s .dupArg .argNotInput (t.name ++ "." ++ f.name) f.args ++
-  (match pickResolver s t f with
-   | some r => if rv then validateResolverArguments (t.name ++ "." ++ f.name) f.args r else []
-   | none => [])
+  validateArgumentsWith c s .dupArg .argNotInput (t.name ++ "." ++ f.name) f.args ++
+  resolverPart c rv (t.name ++ "." ++ f.name) f.args (pickResolver s t f) ++
+  (if c.subscriptionChecked then resolverPart c rv (t.name ++ "." ++ f.name) f.args f.subscriptionResolver else [])
 
 /-- `validate_fields` -/
-def validateFields (s : SchemaD) (rv : Bool) (t : TypeD) : List Err :=
+def validateFieldsWith (c : Config) (s : SchemaD) (rv : Bool) (t : TypeD) : List Err :=
   (if t.fields.isEmpty then [⟨.noFields, [t.name]⟩] else []) ++
   forSeen (·.name) (fun f dup =>
-    (checkValidName f.name ++ (if dup then [⟨.dupField, [f.name, t.name]⟩] else fieldBody s rv t f), true))
+    (checkValidName f.name ++ (if dup then [⟨.dupField, [f.name, t.name]⟩] else []) ++
+      (if dup && c.maskDuplicate then [] else fieldBodyWith c s rv t f), true))
     t.fields []
 
 def ifaceArgErr (ipath opath : String) (objField : FieldD) (a : ArgD) : List Err :=
@@ -225,36 +301,43 @@ def ifaceArgErr (ipath opath : String) (objField : FieldD) (a : ArgD) : List Err
       [⟨.ifaceArgType, [ipath, a.name, a.type.render, opath, a.name, oa.type.render]⟩]
     else []
 
-def extraArgErr (ipath opath : String) (ifaceField : FieldD) (a : ArgD) : List Err :=
+/-- "must not be required": `arg.required` with fix C13-H7, `isinstance(arg.type, NonNullType)` before -/
+def extraArgBlocks (c : Config) (a : ArgD) : Bool :=
+  if c.extraArgRequired then argRequired a else a.type.isNonNull
+
+def extraArgErrWith (c : Config) (ipath opath : String) (ifaceField : FieldD) (a : ArgD) : List Err :=
   match argMap ifaceField a.name with
-  | none => if a.type.isNonNull then [⟨.extraRequiredArg, [opath, a.name, a.type.render, ipath]⟩] else []
+  | none => if extraArgBlocks c a then [⟨.extraRequiredArg, [opath, a.name, a.type.render, ipath]⟩] else []
   | some _ => []
 
-def implFieldErr (s : SchemaD) (t it : TypeD) (f : FieldD) : List Err :=
+def implArgErrsWith (c : Config) (t it : TypeD) (f objField : FieldD) : List Err :=
+  f.args.flatMap (ifaceArgErr (it.name ++ "." ++ f.name) (t.name ++ "." ++ f.name) objField) ++
+  objField.args.flatMap (extraArgErrWith c (it.name ++ "." ++ f.name) (t.name ++ "." ++ f.name) f)
+
+def implFieldErrWith (c : Config) (s : SchemaD) (t it : TypeD) (f : FieldD) : List Err :=
   match fieldMap t f.name with
   | none => [⟨.ifaceFieldMissing, [it.name ++ "." ++ f.name, t.name]⟩]
   | some objField =>
-    if !isSubtype s objField.type f.type then
+    (if !isSubtype s objField.type f.type then
       [⟨.ifaceFieldType, [it.name ++ "." ++ f.name, f.type.render, t.name ++ "." ++ f.name, objField.type.render]⟩]
-    else
-      f.args.flatMap (ifaceArgErr (it.name ++ "." ++ f.name) (t.name ++ "." ++ f.name) objField) ++
-      objField.args.flatMap (extraArgErr (it.name ++ "." ++ f.name) (t.name ++ "." ++ f.name) f)
+     else []) ++
+    (if !isSubtype s objField.type f.type && c.maskImplType then [] else implArgErrsWith c t it f objField)
 
 /-- `validate_implementation` -/
-def validateImplementation (s : SchemaD) (t it : TypeD) : List Err :=
-  it.fields.flatMap (implFieldErr s t it)
+def validateImplementationWith (c : Config) (s : SchemaD) (t it : TypeD) : List Err :=
+  it.fields.flatMap (implFieldErrWith c s t it)
 
-def interfaceStep (s : SchemaD) (t : TypeD) (iname : String) (dup : Bool) : List Err × Bool :=
+def interfaceStepWith (c : Config) (s : SchemaD) (t : TypeD) (iname : String) (dup : Bool) : List Err × Bool :=
   match s.findType iname with
   | none => ([⟨.notInterface, [t.name, iname]⟩], false)
   | some it =>
     if it.kind != .interface then ([⟨.notInterface, [t.name, iname]⟩], false)
     else if dup then ([⟨.dupInterface, [t.name, iname]⟩], false)
-    else (validateImplementation s t it, true)
+    else (validateImplementationWith c s t it, true)
 
-/-- `validate_interfaces` (with the proposed S4 fix: an implemented type must be an `InterfaceType`) -/
-def validateInterfaces (s : SchemaD) (t : TypeD) : List Err :=
-  forSeen id (interfaceStep s t) t.interfaces []
+/-- `validate_interfaces` -/
+def validateInterfacesWith (c : Config) (s : SchemaD) (t : TypeD) : List Err :=
+  forSeen id (interfaceStepWith c s t) t.interfaces []
 
 def memberStep (s : SchemaD) (t : TypeD) (m : String) (dup : Bool) : List Err × Bool :=
   if kindOf s m != some .object then ([⟨.unionMemberNotObject, [t.name, m]⟩], false)
@@ -270,30 +353,51 @@ def validateEnumValues (t : TypeD) : List Err :=
   (if t.values.isEmpty then [⟨.enumEmpty, [t.name]⟩] else []) ++
   t.values.flatMap fun v => checkValidName v.name
 
-/-- `validate_input_fields` (with the proposed S6 fix: field names are checked) -/
-def validateInputFields (s : SchemaD) (t : TypeD) : List Err :=
+/-- `validate_input_fields` -/
+def validateInputFieldsWith (c : Config) (s : SchemaD) (t : TypeD) : List Err :=
   (if t.inputFields.isEmpty then [⟨.noFields, [t.name]⟩] else []) ++
   forSeen (·.name) (fun f dup =>
-    (checkValidName f.name ++
-      (if dup then [⟨.dupField, [f.name, t.name]⟩]
-       else if isInputType s f.type then [] else [⟨.inputFieldNotInput, [f.name, t.name, f.type.render]⟩]), true))
+    (checkValidName f.name ++ (if dup then [⟨.dupField, [f.name, t.name]⟩] else []) ++
+      (if dup && c.maskDuplicate then [] else notInputErr s .inputFieldNotInput t.name f), true))
     t.inputFields []
 
-/-- the body of the loop of `SchemaValidator.__call__` -/
-def validateType (s : SchemaD) (rv : Bool) (t : TypeD) : List Err :=
-  if !(t.builtin || isValidName t.name) then [⟨.invalidTypeName, [t.name]⟩]
-  else match t.kind with
-    | .object => validateFields s rv t ++ validateInterfaces s t
-    | .interface => validateFields s rv t
-    | .union => validateUnionMembers s t
-    | .enum => validateEnumValues t
-    | .input => validateInputFields s t
-    | .scalar => []
+def typeNameErr (t : TypeD) : List Err :=
+  if t.builtin || isValidName t.name then [] else [⟨.invalidTypeName, [t.name]⟩]
 
-/-- `SchemaValidator.__call__` : the errors, in the order they are added.
-    `rv` = `enable_resolver_validation` -/
-def validate (s : SchemaD) (rv : Bool := true) : List Err :=
-  validateRootTypes s ++ s.types.flatMap (validateType s rv) ++ validateDirectives s
+def typeBodyWith (c : Config) (s : SchemaD) (rv : Bool) (t : TypeD) : List Err :=
+  match t.kind with
+  | .object => validateFieldsWith c s rv t ++ validateInterfacesWith c s t
+  | .interface => validateFieldsWith c s rv t
+  | .union => validateUnionMembers s t
+  | .enum => validateEnumValues t
+  | .input => validateInputFieldsWith c s t
+  | .scalar => []
+
+/-- the body of the loop of `SchemaValidator.__call__` -/
+def validateTypeWith (c : Config) (s : SchemaD) (rv : Bool) (t : TypeD) : List Err :=
+  typeNameErr t ++ (if !(t.builtin || isValidName t.name) && c.maskTypeName then [] else typeBodyWith c s rv t)
+
+/-- `SchemaValidator.__call__` : the errors, in the order they are added. `rv` = `enable_resolver_validation` -/
+def validateWith (c : Config) (s : SchemaD) (rv : Bool) : List Err :=
+  validateRootTypes s ++ s.types.flatMap (validateTypeWith c s rv) ++ validateDirectivesWith c s
+
+/-- the validator of the tree under test -/
+def validate (s : SchemaD) (rv : Bool := true) : List Err := validateWith currentConfig s rv
+
+/-! the repaired validator (all proposed fixes): what the theorems speak about once `currentConfig = Config.fixed` -/
+abbrev validateArguments := validateArgumentsWith Config.fixed
+abbrev validateDirectives := validateDirectivesWith Config.fixed
+abbrev validateResolverArguments := validateResolverArgumentsWith Config.fixed
+abbrev fieldBody := fieldBodyWith Config.fixed
+abbrev validateFields := validateFieldsWith Config.fixed
+abbrev extraArgErr := extraArgErrWith Config.fixed
+abbrev implFieldErr := implFieldErrWith Config.fixed
+abbrev validateImplementation := validateImplementationWith Config.fixed
+abbrev interfaceStep := interfaceStepWith Config.fixed
+abbrev validateInterfaces := validateInterfacesWith Config.fixed
+abbrev validateInputFields := validateInputFieldsWith Config.fixed
+abbrev validateType := validateTypeWith Config.fixed
+abbrev validateFixed := validateWith Config.fixed
 
 /-- `validate_schema` does not raise -/
 def accepts (s : SchemaD) : Bool := (validate s true).isEmpty
@@ -337,6 +441,11 @@ def setFieldResolver (s : SchemaD) (tn fn : String) (r : ResolverD) : SchemaD :=
       if t.name == tn then { t with fields := t.fields.map fun f =>
         -- `field_map[fieldname]` is the last field of that name; names are unique in practice
         if f.name == fn then { f with resolver := some r } else f } else t }
+
+def setFieldSubscription (s : SchemaD) (tn fn : String) (r : ResolverD) : SchemaD :=
+  { s with types := s.types.map fun t =>
+      if t.name == tn then { t with fields := t.fields.map fun f =>
+        if f.name == fn then { f with subscriptionResolver := some r } else f } else t }
 
 def setDefaultResolver (s : SchemaD) (tn : String) (r : ResolverD) : SchemaD :=
   { s with types := s.types.map fun t => if t.name == tn then { t with defaultResolver := some r } else t }
@@ -447,7 +556,7 @@ def step (st : CacheState) : Op → CacheState × Outcome
       | some f =>
         if f.resolver.isSome && !allow && !same then (st1, .valueError)
         else ({ st1 with schema := setFieldResolver st.schema tn fn r, isValid := false }, .ok)
-  | .registerSubscription tn fn _ allow _ =>
+  | .registerSubscription tn fn r allow same =>
     if st.regSubs.contains (tn, fn) && !allow then (st, .valueError) else
     let st1 := { st with regSubs := (tn, fn) :: st.regSubs }
     match st.schema.findType tn with
@@ -456,10 +565,9 @@ def step (st : CacheState) : Op → CacheState × Outcome
       if t.kind != .object then (st1, .schemaError) else
       match fieldMap t fn with
       | none => (st1, .schemaError)
-      | some _ =>
-        -- `field.subscription_resolver` is not part of the description: on schemas whose fields start
-        -- without one, the "already has a subscription" test is subsumed by the registry test above
-        ({ st1 with isValid := false }, .ok)
+      | some f =>
+        if f.subscriptionResolver.isSome && !allow && !same then (st1, .valueError)
+        else ({ st1 with schema := setFieldSubscription st.schema tn fn r, isValid := false }, .ok)
   | .replaceTypes entries dirEntries healed =>
     replaceStep replaceAccumulates replaceAtomic replaceDirectivesBust st entries dirEntries healed
 
